@@ -27,8 +27,15 @@
     as found, a leaf split under a FULL on-disk index node and a split whose halves exceed a block panic in
     toBytes (finding ext4-extent-node-overfull-panic, `cex_ext4_index_full_panic`, `cex_ext4_split_overfull_panic`).
 
-  PARTIAL (stated in the manifest): the extent-tree theorems are about successful calls (that a call on a
-  well-shaped tree does not fail, and the accounting of the blocks it takes, are compared per step, not proved);
+    Along a whole history of calls (Proofs/Ext4ExtInv.lean, the code as it is now): on a tree that has the invariant
+    `TreeInv` (root in the inode, every other node non-empty in a block of its own, fan-out of a block, keys = first
+    file blocks, uniform depth, sorted) and an allocator that hands out free blocks, a call answers ok, `nospace`
+    (only when the allocator failed) or one of the two refusals of fix f6794f8 - never a panic, `block number not
+    found` or a write over another node -, keeps the invariant, and the tree's node blocks afterwards are the old
+    ones plus exactly the `metaBlocks` blocks it took from the allocator, pairwise distinct
+    (`exttree_extend_total`, `exttree_history_inv`).
+
+  PARTIAL (stated in the manifest): the extent-tree mirror abstracts the device as nesting;
   writeDirectory's relocation, path walking, inode encoding and the htree directory format are not mirrored; the
   end-to-end clause of the property is checked by the engine's reference-tree oracle on sampled histories only.
 -/
@@ -38,11 +45,14 @@ import DiskfsModel.Proofs.Ext4FileWrite
 import DiskfsModel.Proofs.Ext4FileSparse
 import DiskfsModel.Proofs.Ext4DirPack
 import DiskfsModel.Proofs.Ext4DirRewrite
+import DiskfsModel.Proofs.Ext4DirCsum
 import DiskfsModel.Proofs.Ext4Alloc
 import DiskfsModel.Proofs.Ext4AllocSlow
 import DiskfsModel.Proofs.Ext4ExtTree
 import DiskfsModel.Proofs.Ext4ExtCodec
 import DiskfsModel.Proofs.Ext4ExtShape
+import DiskfsModel.Proofs.Ext4ExtInv
+import DiskfsModel.Proofs.Ext4ExtInvDec
 namespace Diskfs.Ext4.C04
 open Diskfs.Ext4
 
@@ -402,6 +412,33 @@ theorem remove_dir_rewrite (bs : Nat) (csum : Bool) (tail : Bytes → Bytes) (ol
     List.filter_eq_nil_iff.2 (fun e he => by rw [(List.mem_replicate.1 he).2]; simp [DirPack.emp])
   rw [h1, h2, List.append_nil]
 
+/-- remove_dir_rewrite_csum: the same for the bytes the library really writes when metadata_csum is on - the tail
+    function is the real one, `dirTail seed ino gen` = inode 0 / rec_len 12 / type 0xDE / crc32c over the filesystem's
+    checksum seed, the DIRECTORY's inode number, its generation and the block body (the correspondence compares
+    these tails unmasked with the image, with seed / inode / generation decoded from the image by the engine): for
+    every seed, inode number, generation, old content and list of remaining entries that fits, the write-back is what
+    Directory.toBytes packs followed by k empty blocks, each of them one unused entry over `bs - 12` bytes and the
+    checksum tail of exactly these bytes under the directory's own (inode, generation); it keeps the directory's
+    length and parses back to the remaining entries followed by unused ones. -/
+theorem remove_dir_rewrite_csum (bs seed ino gen : Nat) (old : Bytes) (n : Nat) (es : List DirPack.Entry)
+    (hbs : DirPack.BsOK bs) (hes : es ≠ []) (hok : ∀ e ∈ es, DirPack.EntryParseOK e)
+    (hold : old.length = n * bs) (hfit : (DirPack.pack bs true (DirPack.dirTail seed ino gen) es).length ≤ old.length) :
+    ∃ k, DirPack.rewriteDir true bs true (DirPack.dirTail seed ino gen) old es =
+        DirPack.pack bs true (DirPack.dirTail seed ino gen) es ++
+          (List.replicate k (DirPack.encEntry DirPack.emp ((bs - 12) % 65536) ++
+            DirPack.dirTail seed ino gen (DirPack.encEntry DirPack.emp ((bs - 12) % 65536)))).flatten ∧
+      (DirPack.rewriteDir true bs true (DirPack.dirTail seed ino gen) old es).length = old.length ∧
+      DirPack.parse bs true (DirPack.dirTail seed ino gen) (DirPack.rewriteDir true bs true (DirPack.dirTail seed ino gen) old es) =
+        some (es ++ List.replicate k DirPack.emp) := by
+  obtain ⟨k, h1, h2, h3⟩ := DirPack.rewriteDir_spec bs true (DirPack.dirTail seed ino gen) old n es hbs
+    (DirPack.dirTail_ok true seed ino gen) hes hok hold hfit
+  refine ⟨k, ?_, h2, h3⟩
+  rw [h1, DirPack.emptyBlocks, DirPack.emptyBlock_csum]
+
+/-- the real tail function is one the directory theorems cover -/
+theorem dir_tail_ok (csum : Bool) (seed ino gen : Nat) : DirPack.TailOK csum (DirPack.dirTail seed ino gen) :=
+  DirPack.dirTail_ok csum seed ino gen
+
 /-- the write-back as found (32-byte blocks for brevity): a directory of two blocks [a b] [c]; after Remove of b
     the remaining entries fit one block, the second block keeps its old entry and c is listed twice (finding
     ext4-remove-stale-dir-block); with the padding the listing is [a c] and an unused entry -/
@@ -545,5 +582,83 @@ example :
 
 example : ExtTree.ExtentOK ⟨5, 1000000, 32768⟩ ∧ ExtTree.PtrOK (7, 123456789) := by
   unfold ExtTree.ExtentOK ExtTree.PtrOK; decide
+
+/-! ### the extent tree along a history of extendExtentTree calls (Proofs/Ext4ExtInv.lean) -/
+
+/-- exttree_extend_total: ONE call of extendExtentTree (the code as it is now) on a tree that has the invariant
+    `StateInv` - the root in the inode with at most 4 entries; every node below it non-empty, with the fan-out of a
+    block, in a block whose number is not 0, all node blocks pairwise distinct and none of them free; pointer keys =
+    first file blocks; uniform depth; file blocks strictly increasing - with ANY allocator that hands out blocks
+    that were free (`AllocOK`), any block size of 48 bytes or more, and any non-empty list of added extents behind
+    the file's extents. The call answers
+      * ok - and then the new tree has the invariant again (so the next call meets the same hypotheses), denotes the
+        old extents followed by the added ones, and its node blocks are the old node blocks plus `taken`: exactly
+        `metaBlocks` blocks, pairwise distinct, free before the call and not free after it, while no other block
+        changed its state (no node is written over another node or over a block somebody else owns);
+      * `nospace` - only when some allocateExtents call failed;
+      * `unsupported` - only in the two refusals of fix f6794f8 (`refusesTop`: the last leaf is full and either its
+        parent index node lives in a block and is full, or the extents do not fit two leaves);
+    and NEVER panics, reports `block number not found`, or takes a lookup by key / block number to another node
+    than the one it descended into (`weird`). -/
+theorem exttree_extend_total {σ : Type} (A : ExtTree.Allocator σ) (free : σ → Nat → Bool) (hA : ExtTree.AllocOK A free)
+    (bs : Nat) (h3 : 3 ≤ ExtTree.nonRootMax bs) (s : σ) (t : ExtTree.Node) (a0 : Extent) (rest : List Extent)
+    (hI : ExtTree.StateInv free bs s t) (hs : ExtTree.SortedFB (ExtTree.flatten t ++ a0 :: rest)) :
+    match ExtTree.extend true A s bs (some t) (a0 :: rest) with
+    | .ok (t', m, s') =>
+      ExtTree.StateInv free bs s' t' ∧ ExtTree.flatten t' = ExtTree.flatten t ++ a0 :: rest ∧
+        ∃ taken, taken.length = m ∧ ExtTree.Took free s s' taken ∧
+          (ExtTree.treeBlocks t').Perm (ExtTree.treeBlocks t ++ taken)
+    | .err .nospace => ∃ s0 n, A.take s0 n = none
+    | .err .unsupported => ExtTree.refusesTop bs (rest.length + 1) t
+    | _ => False :=
+  ExtTree.extend_good A free hA bs h3 s t a0 rest hI hs
+
+/-- exttree_history_inv: the invariant theorem over a whole history. A file starts with no tree (or any tree that
+    has the invariant) and extendExtentTree is called once per allocation with a non-empty list of extents, all of
+    them in increasing file-block order behind what the file has. For EVERY such list of calls, allocator with the
+    laws `AllocOK` and block size: the history never panics / loses a node / writes over another node; it stops only
+    at a call the allocator could not serve or at a refusal; and when all calls succeed the final tree has the
+    invariant, denotes exactly the extents of all calls in order, and the sum of the metaBlocks the calls reported
+    (what File.Write adds to i_blocks) is the number of blocks taken from the allocator over the whole history -
+    which are exactly the node blocks the final tree has more than the first one, pairwise distinct. -/
+theorem exttree_history_inv {σ : Type} (A : ExtTree.Allocator σ) (free : σ → Nat → Bool) (hA : ExtTree.AllocOK A free)
+    (bs : Nat) (h3 : 3 ≤ ExtTree.nonRootMax bs) (calls : List (List Extent)) (hne : ∀ c ∈ calls, c ≠ [])
+    (s : σ) (t : Option ExtTree.Node) (hI : ExtTree.OInv free bs s t)
+    (hs : ExtTree.SortedFB (ExtTree.oflat t ++ calls.flatten)) :
+    match ExtTree.runExtends A bs s t calls with
+    | .ok (s', t', M) =>
+      ExtTree.OInv free bs s' t' ∧ ExtTree.oflat t' = ExtTree.oflat t ++ calls.flatten ∧
+        ∃ taken, taken.length = M ∧ ExtTree.Took free s s' taken ∧
+          (ExtTree.oblocks t').Perm (ExtTree.oblocks t ++ taken)
+    | .err .nospace => ∃ s0 n, A.take s0 n = none
+    | .err .unsupported => True
+    | _ => False :=
+  ExtTree.runExtends_good A free hA bs h3 calls hne s t hI hs
+
+/-- exttree_inv_decided: the checker the driver runs on every tree the correspondence reads from the device (op
+    `ext4tree.inv`: the real trees after every compared extendExtentTree step and deeptree round, and damaged copies)
+    decides exactly the invariant `TreeInv` of the two theorems above -/
+theorem exttree_inv_decided (bs : Nat) (t : ExtTree.Node) : ExtTree.treeInvB bs t = true ↔ ExtTree.TreeInv bs t :=
+  ExtTree.treeInvB_iff bs t
+
+/-- non-vacuity: the bump allocator of the examples satisfies `AllocOK`; the depth-2 tree of the example above has
+    the invariant with it; and a history of nine one-extent calls from no tree at all (block size 48: three entries
+    per block node) runs through the root leaf, its split into two leaves in blocks, leaf splits under the root - four node
+    blocks taken, four reported -/
+example : ExtTree.AllocOK ExtTree.bump (fun s x => decide (s ≤ x)) := ExtTree.bump_ok
+example : ExtTree.StateInv (fun s x => decide (s ≤ x)) 48 200
+    (.index 4 0 2 [(0, .index 3 50 1 [(0, .leaf 3 51 [⟨0, 100, 1⟩, ⟨1, 101, 1⟩, ⟨2, 102, 1⟩])])]) := by
+  refine ⟨⟨?_, ?_, ?_⟩, by decide, ?_⟩
+  · simp [ExtTree.goodRoot, ExtTree.good, ExtTree.good.goodKids, ExtTree.nonRootMax, ExtTree.Node.depth, ExtTree.Node.firstKey]
+  · simp [ExtTree.flatten, ExtTree.flattenKids, ExtTree.SortedFB]
+  · simp [ExtTree.treeBlocks, ExtTree.treeBlocksKids, ExtTree.Node.disk]
+  · simp [ExtTree.treeBlocks, ExtTree.treeBlocksKids, ExtTree.Node.disk]
+example : ExtTree.OInv (fun s x => decide (s ≤ x)) 48 200 none := by simp [ExtTree.OInv]
+example :
+    ((ExtTree.runExtends ExtTree.bump 48 200 none
+        ((List.range 9).map fun i => [⟨i, 100 + i, 1⟩])).toOption.map fun r =>
+          (r.1, (ExtTree.oflat r.2.1).map (·.fileBlock), ExtTree.oblocks r.2.1, r.2.2)) =
+      some (204, [0, 1, 2, 3, 4, 5, 6, 7, 8], [200, 201, 202, 203], 4) := by
+  decide
 
 end Diskfs.Ext4.C04
